@@ -1,16 +1,16 @@
 SPECIFICATION Spec
 CONSTANTS
-  Construct = "gen"
-  MaxN = 3
-  MaxK = 2
-  FKinds = {"err", "panicErr", "skip", "eof", "ctx", "excl"}
+  Construct = "pp"
+  MaxN = 2
+  MaxK = 1
+  FKinds = {"panicErr"}
   MaxFaults = 1
-  OptSet <- OptsCore
+  OptSet <- OptsAbort
   AbortCancels = TRUE
   GenChecksCtx = TRUE
   ResolverSame = TRUE
   ExcludedConsulted = TRUE
-  Mut = "none"
+  Mut = "nopanicjoin"
 INVARIANTS TypeOK NothingSwallowed NeverReported NilIffNoFailure AtMostOnce ContinueAll AbortedWorkerStops AbortBound NoStall AllDone
 PROPERTIES Settles
 CHECK_DEADLOCK FALSE
